@@ -6,6 +6,7 @@ import (
 	"os"
 	"sort"
 
+	"verifsim/fmtv2"
 	"verifsim/sim"
 	"verifsim/world"
 
@@ -87,7 +88,26 @@ func lruScen(c *Ctx) {
 			}
 		}
 	}
-	n = c.Start("g0:", c.Dir("f"), cfg, nil)
+	// Optionally a backend (b0): uploads are written through, and a lookup of
+	// an entry that is not held locally is an incoming fetch ("an incoming
+	// upload or fetch"), which may evict exactly like an upload.
+	var st *world.Store
+	var proxy cache.Proxy
+	if c.Opt("backend", "") == "1" || (c.Opt("backend", "") == "" && r.Chance(1, 3)) {
+		st = world.NewStore(s, cfg.Storage == "zstd")
+		proxy = &world.DirectProxy{St: st}
+	}
+	backendHas := func(key string) bool {
+		if st == nil {
+			return false
+		}
+		ek, hash := cache.CAS, key[4:]
+		if key[:3] == "ac/" {
+			ek, hash = cache.AC, key[3:]
+		}
+		return st.Has(world.ObjectName(ek, hash, st.V2))
+	}
+	n = c.Start("g0:", c.Dir("f"), cfg, proxy)
 	if n.Err != nil {
 		s.Violate("C09.starts", "g0:", "start-up failed on an empty directory: %v", n.Err)
 		return
@@ -151,6 +171,16 @@ func lruScen(c *Ctx) {
 			}
 			b := world.Make(world.BlobID{Kind: r.Intn(3), Seed: 4000 + seq, Size: sz})
 			universe = append(universe, b)
+			if st != nil && k == 0 && sz <= max && r.Chance(1, 3) {
+				// held by the backend only: the first lookup fetches it
+				obj := b.Data
+				if st.V2 {
+					obj = fmtv2.Encode(b.Data, fmtv2.WriteOpts{})
+				}
+				st.Objects[world.ObjectName(cache.CAS, b.Hash, st.V2)] = obj
+				ops = append(ops, op{kind: []int{1, 4, 1}[r.Intn(3)], ek: cache.CAS, key: "cas/" + b.Hash, b: b})
+				continue
+			}
 			ops = append(ops, op{kind: k, ek: cache.CAS, key: "cas/" + b.Hash, b: b})
 		case 1, 2, 4, 5:
 			if r.Chance(1, 4) {
@@ -183,14 +213,22 @@ func lruScen(c *Ctx) {
 		cl := world.NewClient(s, n)
 		for i, o := range ops {
 			before := world.Observe(n)
+			// Space taken by the indexed entries, from the files themselves (not
+			// from the index's own bookkeeping; that they agree is C03/C04).
 			sizeOf := map[string]int64{}
+			var sigma int64
 			for _, e := range before.Index {
-				sizeOf[e.Key] = world.R4k(e.SizeOnDisk)
+				sz := e.SizeOnDisk
+				if fi, err := os.Stat(e.Path); err == nil {
+					sz = fi.Size()
+				}
+				sizeOf[e.Key] = world.R4k(sz)
+				sigma += world.R4k(sz)
 			}
-			sigma := before.Cnt.CurrentSize
 			var used []string // keys this request uses (hits / writes)
 			var incoming int64 = -1
 			var wrote string
+			fetched := false
 			site := ""
 			switch o.kind {
 			case 0, 6:
@@ -235,11 +273,24 @@ func lruScen(c *Ctx) {
 				res := cl.DiskGet(o.ek, hash, sz, 0, false, world.FullRead)
 				site = "disk.Get"
 				s.Note("%d get %s -> %s", i, short(o.key), res.Code)
+				if _, idx := sizeOf[o.key]; !idx && st != nil && !res.Found && sz > 0 {
+					// a local miss with a backend configured is an incoming fetch of
+					// the requested size until the backend has answered: room is
+					// made for it first, whether or not the backend then delivers
+					incoming = sz
+					site = "disk.Get/fetch-attempt"
+					s.Probe("fetch_attempt_missed_in_backend")
+				}
 				if res.Found {
-					used = append(used, o.key)
 					want := acVals[o.key]
 					if o.b != nil {
 						want = o.b.Data
+					}
+					if _, idx := sizeOf[o.key]; !idx && backendHas(o.key) {
+						incoming, fetched = int64(len(want)), true // fetched through the proxy
+						s.Probe("fetch_through_proxy")
+					} else {
+						used = append(used, o.key)
 					}
 					if res.OK && !bytes.Equal(res.Data, want) {
 						s.Violate("C02.exact", site, "read of %s returned wrong bytes", short(o.key))
@@ -248,7 +299,7 @@ func lruScen(c *Ctx) {
 			case 2:
 				res := cl.DiskContains(cache.CAS, o.b.Hash, o.b.Size())
 				site = "disk.Contains"
-				if res.Found {
+				if _, idx := sizeOf[o.key]; res.Found && (idx || !backendHas(o.key)) {
 					used = append(used, o.key)
 				}
 			case 3:
@@ -266,19 +317,24 @@ func lruScen(c *Ctx) {
 				for _, b := range o.multi {
 					if !miss[b.Hash] && !seen[b.Hash] {
 						seen[b.Hash] = true
-						used = append(used, "cas/"+b.Hash)
+						if _, idx := sizeOf["cas/"+b.Hash]; idx || !backendHas("cas/"+b.Hash) {
+							used = append(used, "cas/"+b.Hash)
+						}
 					}
 				}
 			case 4:
 				res := cl.HTTPGet("/cas/"+o.b.Hash, r.Chance(1, 2), world.FullRead)
 				site = "http.GET"
-				if res.Found {
+				if _, idx := sizeOf[o.key]; res.Found && !idx && backendHas(o.key) {
+					incoming, fetched = o.b.Size(), true
+					s.Probe("fetch_through_proxy")
+				} else if res.Found {
 					used = append(used, o.key)
 				}
 			case 5:
 				res := cl.HTTPHead("/cas/" + o.b.Hash)
 				site = "http.HEAD"
-				if res.Found {
+				if _, idx := sizeOf[o.key]; res.Found && (idx || !backendHas(o.key)) {
 					used = append(used, o.key)
 				}
 			}
@@ -287,6 +343,14 @@ func lruScen(c *Ctx) {
 			inAfter := map[string]bool{}
 			for _, e := range after.Index {
 				inAfter[e.Key] = true
+			}
+			if fetched {
+				site += "/fetch"
+				if inAfter[o.key] {
+					wrote = o.key
+				} else {
+					s.Probe("fetch_not_kept")
+				}
 			}
 			// a lookup reported as a hit must concern an entry that was indexed
 			for _, k := range used {
@@ -318,6 +382,9 @@ func lruScen(c *Ctx) {
 			if wrote != "" {
 				if e := after.Find(wrote); e != nil {
 					dNew = world.R4k(e.SizeOnDisk)
+					if fi, err := os.Stat(e.Path); err == nil {
+						dNew = world.R4k(fi.Size())
+					}
 				} else if fits(o.b.Size(), max) {
 					s.Violate("C05.present-after", site, "accepted upload of %s (%d bytes, max_size %d) is not indexed afterwards", short(wrote), o.b.Size(), max)
 				}
